@@ -471,6 +471,18 @@ int QSexact_optimal_test (mpq_QSdata * p,
 				mpq_set (p_sol[i], arr4[structmap[i]]);
 			else if (mpq_cmp (p_sol[i], arr3[structmap[i]]) < 0)
 				mpq_set (p_sol[i], arr3[structmap[i]]);
+			/* a basis that comes from a floating point solve may call a column free
+			 * whose bounds are finite in rational arithmetic: label it by the bound
+			 * it has been moved to, so that the basis describes the tested point */
+			if (basis->cstat[i] == QS_COL_BSTAT_FREE)
+			{
+				if (mpq_cmp (arr3[structmap[i]], mpq_ILL_MINDOUBLE) > 0 &&
+						mpq_equal (p_sol[i], arr3[structmap[i]]))
+					basis->cstat[i] = QS_COL_BSTAT_LOWER;
+				else if (mpq_cmp (arr4[structmap[i]], mpq_ILL_MAXDOUBLE) < 0 &&
+								 mpq_equal (p_sol[i], arr4[structmap[i]]))
+					basis->cstat[i] = QS_COL_BSTAT_UPPER;
+			}
 			break;
 		case QS_COL_BSTAT_UPPER:
 			mpq_set (p_sol[i], arr4[structmap[i]]);
